@@ -158,13 +158,16 @@ func tryRecursiveValidate(val reflect.Value, opts *options, validators []validat
 	}
 
 	var err error
-	switch chaseValue(val).Kind() {
+	chased := chaseValue(val)
+	switch chased.Kind() {
 	case reflect.Struct:
 		err = validateStruct(val, opts)
 	case reflect.Map:
-		err = validateMap(val, opts)
+		// validateMap and validateArray use the map/list itself, not the
+		// pointers or interfaces it is held by
+		err = validateMap(chased, opts)
 	case reflect.Array, reflect.Slice:
-		err = validateArray(val, opts)
+		err = validateArray(chased, opts)
 	}
 
 	if err != nil {
